@@ -193,3 +193,83 @@ theorem applyOp_ty_congr (op : Op) {vs vs' : List Val} (h : SameTys vs vs') : (a
             | exact foldl_ty_congr (boolBin _) (ty_boolBin _) (.cons h1 (.cons h2 (.cons h3 (.cons h4 hr4)))) rfl
 
 end Claripy.AST
+
+namespace Claripy.AST
+
+theorem foldl_strict (f : Val → Val → Val) (hl : ∀ b, f .err b = .err) (hr : ∀ a, f a .err = .err) :
+    ∀ (vs : List Val) (acc : Val), (acc = .err ∨ .err ∈ vs) → vs.foldl f acc = .err := by
+  intro vs
+  induction vs with
+  | nil => intro acc h; rcases h with h | h; exact h; simp at h
+  | cons v vs ih =>
+    intro acc h
+    simp only [List.foldl]
+    apply ih
+    rcases h with h | h
+    · left; rw [h, hl]
+    · simp only [List.mem_cons] at h
+      rcases h with h | h
+      · left; rw [← h, hr]
+      · right; exact h
+
+theorem foldVals_strict (f : Val → Val → Val) (hl : ∀ b, f .err b = .err) (hr : ∀ a, f a .err = .err)
+    (vs : List Val) (h : .err ∈ vs) : foldVals f vs = .err := by
+  cases vs with
+  | nil => simp at h
+  | cons v vs =>
+    simp only [foldVals]
+    apply foldl_strict f hl hr
+    simp only [List.mem_cons] at h
+    rcases h with h | h
+    · left; exact h.symm
+    · right; exact h
+
+theorem valConcat_err_l (b : Val) : valConcat .err b = .err := rfl
+theorem valConcat_err_r (a : Val) : valConcat a .err = .err := by cases a <;> rfl
+theorem valReverse_err : valReverse .err = .err := rfl
+
+/-- **strictness**: a node with an ill-typed operand is ill-typed -/
+theorem applyOp_strict (op : Op) (vs : List Val) (h : Val.err ∈ vs) : applyOp op vs = .err := by
+  have hb := fun (f : (w : Nat) → BitVec w → BitVec w → BitVec w) =>
+    foldVals_strict (bvBin f) (bvBin_err_l f) (bvBin_err_r f) vs h
+  have hc := foldVals_strict valConcat valConcat_err_l valConcat_err_r vs h
+  have hbo := fun (f : Bool → Bool → Bool) (acc : Val) =>
+    foldl_strict (boolBin f) (boolBin_err_l f) (boolBin_err_r f) vs acc (Or.inr h)
+  match vs, h with
+  | [a], h =>
+    simp only [List.mem_singleton] at h
+    subst h
+    cases op <;> first | rfl | exact hc | exact hbo _ _
+  | [a, b], h =>
+    simp only [List.mem_cons, List.mem_nil_iff, or_false] at h
+    cases op <;> first
+      | exact hb _
+      | exact hc
+      | exact hbo _ _
+      | (rcases h with h | h <;> subst h <;> simp [applyOp])
+      | (rw [applyOp_extract_many])
+      | (rw [applyOp_zeroExt_many])
+      | (rw [applyOp_signExt_many])
+      | rfl
+  | [c, a, b], h =>
+    simp only [List.mem_cons, List.mem_nil_iff, or_false] at h
+    cases op <;> first
+      | exact hb _
+      | exact hc
+      | exact hbo _ _
+      | (rcases h with h | h | h <;> subst h <;> simp [applyOp])
+      | (rw [applyOp_extract_many])
+      | (rw [applyOp_zeroExt_many])
+      | (rw [applyOp_signExt_many])
+      | rfl
+  | a :: b :: c :: d :: rest, h =>
+    cases op <;> first
+      | exact hb _
+      | exact hc
+      | exact hbo _ _
+      | (rw [applyOp_extract_many])
+      | (rw [applyOp_zeroExt_many])
+      | (rw [applyOp_signExt_many])
+      | rfl
+
+end Claripy.AST
